@@ -112,8 +112,10 @@ def run(ctx):
             else:
                 if impl is not None and o.get("implIsChain") is not True:
                     ctx.mismatch("isWrapChain(real answer)", replay, True, o)
-                if (o.get("model") is None) != (impl is None) or (impl is not None and len(o["model"]) != impl):
-                    ctx.mismatch("wrap some/none/length", replay, impl, o)
+                # exact: compute_wrapping's answer is a function of the edge order of the automata (FIFO queue,
+                # `for i in range(len(match.next))`, seen-marking at append time), which the model follows step by step
+                if o.get("model") != impl:
+                    ctx.mismatch("wrap chain (exact)", replay, impl, o)
         del reqs[:], metas[:]
 
     fam = schemas.family()
@@ -193,7 +195,7 @@ def run(ctx):
                             ctx.violation("wrap-incomplete", "find_wrapping returned nothing although a chain exists", dict(replay, chain=[x.name for x in bw]))
                     reqs.append({"op": "wrap", "s": info.lean_id, "ty": info.nid[t.name], "q": qi, "target": info.nid[target.name],
                                  "impl": None if chain is None else [info.nid[x.name] for x in chain]})
-                    metas.append(("wrap", replay, None if chain is None else len(chain)))
+                    metas.append(("wrap", replay, None if chain is None else [info.nid[x.name] for x in chain]))
             # ---- create_and_fill
             if t.has_required_attrs():
                 continue
